@@ -1,13 +1,17 @@
 package main
 
 import (
+	"bytes"
 	"crypto/md5"
 	"crypto/sha1"
 	"crypto/sha256"
 	"fmt"
+	"runtime"
 	"strconv"
 	"strings"
+	"sync"
 	"sync/atomic"
+	"time"
 
 	"verifharness/internal/dec"
 	"verifharness/internal/ev"
@@ -336,9 +340,158 @@ func c03(run *ev.Run, tier string) {
 		}
 	})
 	run.Set("cases_rebuilt_after_source_change", rebuilt)
+	c03Overlapping(run, tier, &st)
+	// the command line tool rebuilding to the same target after the payload shrank
+	if bin := nfpmBin(run); bin != "" {
+		cliRebuildSmaller(run, bin, "C03", func(f, how string, atTarget, fresh []byte) {
+			p := dec.Decode(f, atTarget, false)
+			if len(p.Errs) > 0 {
+				run.Violate("C03/"+f+"/cli-rebuild/undecodable", map[string]any{"how": how, "errors": p.Errs})
+				return
+			}
+			for _, pr := range digestProblems(f, p, &st) {
+				run.Violate("C03/"+f+"/cli-rebuild/"+pr.kind, map[string]any{"how": how, "detail": ev.Short(pr.detail, 600)})
+			}
+			if len(atTarget) != len(fresh) {
+				run.Violate("C03/"+f+"/cli-rebuild/bytes-outside-the-digested-package", map[string]any{"how": how, "file_bytes": len(atTarget), "package_bytes": len(fresh)})
+			}
+		})
+	}
 	run.Set("digests_recomputed", st.digests)
 	run.Set("size_fields_checked", st.sizes)
 	run.Set("digest_lines_parsed", st.lines)
 	run.Assume("rpm signature tag 1007 is accepted when it equals the uncompressed cpio length or the sum of file sizes (rpm does not verify it; rpmpack writes the latter)")
 	run.Assume("deb md5sums names may be stored as './usr/bin/x' or 'usr/bin/x' (both are relative; the property does not pick one)")
+}
+
+// slowWriter accepts a few KiB per call and yields in between: a destination
+// that drains slowly (a pipe, a network file system) keeps a build inside its
+// final write phase while other builds of the same process start and finish.
+type slowWriter struct {
+	buf bytes.Buffer
+}
+
+func (w *slowWriter) Write(p []byte) (int, error) {
+	n := len(p)
+	for len(p) > 0 {
+		k := len(p)
+		if k > 4096 {
+			k = 4096
+		}
+		w.buf.Write(p[:k])
+		p = p[k:]
+		runtime.Gosched()
+		time.Sleep(20 * time.Microsecond)
+	}
+	return n, nil
+}
+
+// c03Overlapping: several packages of one format are built at the same time in
+// this process into slowly draining destinations, once with a single P (buffers
+// recycled through a sync.Pool come back to the very next taker) and once with
+// all of them. Every package must carry digests of its OWN bytes and equal the
+// package built alone.
+func c03Overlapping(run *ev.Run, tier string, st *digStats) {
+	ncfg := 6
+	if tier == "thorough" {
+		ncfg = 16
+	}
+	type cs struct {
+		c    *gen.Case
+		y    string
+		root string
+	}
+	var cases []cs
+	for i := 0; i < ncfg; i++ {
+		root := newWorkDir("c03o")
+		o := gen.DefaultOpts()
+		o.NEntries = [2]int{2, 6}
+		o.Big = 1
+		c, err := gen.New(uint64(run.Seed), 30000+i, root, o)
+		if err != nil {
+			run.Inconclusive(err.Error())
+			removeWorkDir(root)
+			continue
+		}
+		c.Spec.Deb.Compression = []string{"", "gzip", "none", "zstd"}[i%4]
+		cases = append(cases, cs{c, c.Spec.YAML(), root})
+	}
+	defer func() {
+		for _, c := range cases {
+			removeWorkDir(c.root)
+		}
+	}()
+	var built int64
+	for _, procs := range []int{1, 0} {
+		prev := runtime.GOMAXPROCS(0)
+		if procs > 0 {
+			runtime.GOMAXPROCS(procs)
+		}
+		for _, f := range formats {
+			alone := make([][]byte, len(cases))
+			for k, c := range cases {
+				if r := buildYAML(c.y, f); r.Err == nil && r.Panic == "" {
+					alone[k] = r.Bytes
+				}
+			}
+			for round := 0; round < 2; round++ {
+				outs := make([]*slowWriter, len(cases))
+				errs := make([]error, len(cases))
+				var wg sync.WaitGroup
+				for k := range cases {
+					if alone[k] == nil {
+						continue
+					}
+					outs[k] = &slowWriter{}
+					wg.Add(1)
+					go func(k int) {
+						defer wg.Done()
+						defer func() {
+							if r := recover(); r != nil {
+								errs[k] = fmt.Errorf("panic: %v", r)
+							}
+						}()
+						if round == 1 {
+							time.Sleep(time.Duration(k) * 300 * time.Microsecond) // staggered starts
+						}
+						err, pan := packageTo(cases[k].y, f, outs[k], nil)
+						if pan != "" {
+							err = fmt.Errorf("panic: %s", pan)
+						}
+						errs[k] = err
+					}(k)
+				}
+				wg.Wait()
+				for k := range cases {
+					if outs[k] == nil {
+						continue
+					}
+					atomic.AddInt64(&built, 1)
+					run.Case(fmt.Sprintf("overlapping|procs=%d|%s|round=%d|case=%d", procs, f, round, k), true)
+					d := map[string]any{"gomaxprocs": procs, "case": 30000 + k, "builds_in_flight": len(cases), "staggered": round == 1}
+					if errs[k] != nil {
+						d["error"] = errs[k].Error()
+						run.Violate("C03/"+f+"/overlapping-build-failed", d)
+						continue
+					}
+					p := dec.Decode(f, outs[k].buf.Bytes(), false)
+					if len(p.Errs) > 0 {
+						d["errors"] = p.Errs
+						run.Violate("C03/"+f+"/overlapping/undecodable", d)
+						continue
+					}
+					for _, pr := range digestProblems(f, p, st) {
+						d["detail"] = ev.Short(pr.detail, 600)
+						run.Violate("C03/"+f+"/overlapping/"+pr.kind, d)
+					}
+					if !bytes.Equal(outs[k].buf.Bytes(), alone[k]) {
+						d["len"], d["len_alone"] = outs[k].buf.Len(), len(alone[k])
+						run.Violate("C03/"+f+"/overlapping/differs-from-the-package-built-alone", d)
+					}
+				}
+			}
+		}
+		runtime.GOMAXPROCS(prev)
+	}
+	run.Set("packages_built_while_others_were_in_flight", built)
 }
